@@ -17,6 +17,7 @@ func init() {
 }
 
 func ruleR3ClosureScope(c *Ctx) []Obligation {
+	r2LoopCtx = c
 	roles := vmCompRoles(c)
 	a := r3emLinkAnchors(c)
 	scopeF := roles.scopes.field
@@ -52,7 +53,7 @@ func ruleR3ClosureScope(c *Ctx) []Obligation {
 				return true
 			}
 			l := r2LoopOf(info, s)
-			if l == nil || l.coll == nil || vmFieldOf(info, l.coll) != scopeF {
+			if l == nil || l.coll == nil || r2FieldOrAlias(fn, l.coll) != scopeF {
 				return true
 			}
 			// a lookup: the body indexes a scope map with a string and returns / uses the result
@@ -126,7 +127,7 @@ func ruleR3ClosureScope(c *Ctx) []Obligation {
 				}
 			case *ast.CallExpr:
 				g := CalleeOf(info, x)
-				return g != nil && roles.emitters[g] && g != roles.insert
+				return g != nil && roles.emitters[g] && !r2EmitIdx(c).isForward(g) && r2EmitIdx(c).singleOf(g) == nil
 			}
 			return false
 		}
@@ -145,7 +146,7 @@ func ruleR3ClosureScope(c *Ctx) []Obligation {
 					cut = true
 					break
 				}
-				if e.K == evCall && e.Fn != nil && roles.emitters[e.Fn] && e.Fn != roles.insert {
+				if e.K == evCall && e.Fn != nil && roles.emitters[e.Fn] && !r2EmitIdx(c).isForward(e.Fn) && r2EmitIdx(c).singleOf(e.Fn) == nil {
 					// a child compilation before any cut
 					break
 				}
